@@ -1,3 +1,4 @@
+import SignaloModel.Proofs.BridgeHull
 import SignaloModel.Proofs.BridgeSimple
 import SignaloModel.Proofs.SmoothProofs
 /-!
@@ -6,6 +7,7 @@ import SignaloModel.Proofs.SmoothProofs
 Property theorems for C06 (statements are printed by `#check`, axioms by `#check @Registry.kalman_step_textbook
 #check @Registry.kalman_state
 #check @Registry.kalman_registry_correct
+#check @Registry.kalman_registry_hull
 #print axioms`;
 `bin/check C06` re-elaborates this file on every run and audits the axiom lists).
 -/
@@ -21,3 +23,4 @@ open SignaloModel
 #print axioms Registry.kalman_step_textbook
 #print axioms Registry.kalman_state
 #print axioms Registry.kalman_registry_correct
+#print axioms Registry.kalman_registry_hull
